@@ -10,6 +10,7 @@ set of outcomes it reaches on the real hooks with the sets specified here).
 -/
 import HvSim.Props.C36
 import HvSim.Model.Enum
+import HvSim.Model.Trace
 namespace HvSim
 variable {α κ β : Type}
 
@@ -1931,5 +1932,277 @@ theorem tlKeyed_silence_reachable [DecidableEq κ] (m m2 : KMap κ α) (log : Li
     · exact ⟨[], ⟨[], log⟩, by simp [tlKeyedMergeAuto, hq]⟩
     · exact ⟨[1], ⟨[], .b true :: log⟩, by simp [tlKeyedMergeAuto, hq, hb]⟩
 
+
+
+/-! ### `run_hooks`: which call is forced (the `|=` accumulation of the second pass) -/
+
+theorem aux_pass1T_erase [DecidableEq κ] : ∀ (hs : List (Hook κ α)) (i : Nat) (made : Bool) (rem : Nat) (d : Drv),
+    (runPass1T hs i made rem d).map (fun r => (r.1, r.2.1, r.2.2.1, r.2.2.2.1)) = runPass1 hs made rem d := by
+  intro hs
+  induction hs with
+  | nil => intro i made rem d; simp [runPass1T, runPass1]
+  | cons h rest ih =>
+    intro i made rem d
+    unfold runPass1T runPass1
+    cases hc : h.cur with
+    | some nt =>
+      simp only []
+      rw [← ih (i + 1) (made || nt) (rem - 1) d]
+      cases runPass1T rest (i + 1) (made || nt) (rem - 1) d <;> rfl
+    | none =>
+      simp only []
+      cases hcan : h.canNT with
+      | false =>
+        simp only [Bool.not_false, ↓reduceIte]
+        cases ha : h.auto d false with
+        | none => rfl
+        | some res =>
+          obtain ⟨nt, h', d1⟩ := res
+          simp only []
+          rw [← ih (i + 1) made (rem - 1) d1]
+          cases runPass1T rest (i + 1) made (rem - 1) d1 <;> rfl
+      | true =>
+        simp only [Bool.not_true, Bool.false_eq_true, ↓reduceIte]
+        rw [← ih (i + 1) made rem d]
+        cases runPass1T rest (i + 1) made rem d <;> rfl
+
+theorem aux_pass2T_erase [DecidableEq κ] : ∀ (hs : List (Hook κ α)) (i : Nat) (made : Bool) (rem : Nat) (d : Drv),
+    (runPass2T hs i made rem d).map (fun r => (r.1, r.2.1, r.2.2.1, r.2.2.2.1)) = runPass2 hs made rem d := by
+  intro hs
+  induction hs with
+  | nil => intro i made rem d; simp [runPass2T, runPass2]
+  | cons h rest ih =>
+    intro i made rem d
+    unfold runPass2T runPass2
+    cases hc : h.cur with
+    | some b =>
+      simp only []
+      cases hr : h.release with
+      | none => rfl
+      | some r =>
+        obtain ⟨h2, out⟩ := r
+        simp only []
+        rw [← ih (i + 1) made rem d]
+        cases runPass2T rest (i + 1) made rem d <;> rfl
+    | none =>
+      simp only []
+      cases ha : h.auto d (!made && rem == 1) with
+      | none => rfl
+      | some res =>
+        obtain ⟨nt, h', d1⟩ := res
+        simp only []
+        cases hz : (rem == 0) with
+        | true => rfl
+        | false =>
+          simp only [Bool.false_eq_true, ↓reduceIte]
+          cases hr : h'.release with
+          | none => rfl
+          | some r =>
+            obtain ⟨h2, out⟩ := r
+            simp only []
+            rw [← ih (i + 1) (made || nt) (rem - 1) d1]
+            cases runPass2T rest (i + 1) (made || nt) (rem - 1) d1 <;> rfl
+
+/-- the traced `run_hooks` is `run_hooks`: forgetting the trace gives `runHooks` (so the trace the
+driver prints, and the theorems below, are about the computation all other theorems are about) -/
+theorem runHooksT_erases_to_runHooks [DecidableEq κ] (hs : List (Hook κ α)) (d : Drv) :
+    (runHooksT hs d).map (fun r => (r.1, r.2.1, r.2.2.1, r.2.2.2.1)) = runHooks hs d := by
+  unfold runHooksT runHooks
+  rw [← aux_pass1T_erase hs 0 false hs.length d]
+  cases runPass1T hs 0 false hs.length d with
+  | none => rfl
+  | some r =>
+    obtain ⟨hs1, made, rem, d1, ev1⟩ := r
+    simp only [Option.map_some]
+    rw [← aux_pass2T_erase hs1 0 made rem d1]
+    cases runPass2T hs1 0 made rem d1 <;> rfl
+
+/-! the forcing discipline read off a trace -/
+
+theorem aux_forcesOK_split : ∀ (ev : List Ev) (made : Bool), forcesOK made ev = true →
+    ∀ (pre post : List Ev) (j : Nat) (f nt : Bool), ev = pre ++ Ev.auto j f nt :: post →
+      f = (!made && !(pre.any Ev.isNT) && noAuto post) := by
+  intro ev
+  induction ev with
+  | nil => intro made _ pre post j f nt h; simp at h
+  | cons e r ih =>
+    intro made hok pre post j f nt h
+    cases pre with
+    | nil =>
+      simp only [List.nil_append, List.cons.injEq] at h
+      obtain ⟨rfl, rfl⟩ := h
+      simp only [forcesOK, Bool.and_eq_true, beq_iff_eq] at hok
+      simp [hok.1]
+    | cons e' pre' =>
+      simp only [List.cons_append, List.cons.injEq] at h
+      obtain ⟨rfl, hr⟩ := h
+      cases e with
+      | rel i =>
+        simp only [forcesOK] at hok
+        have := ih made hok pre' post j f nt hr
+        simp [this, Ev.isNT]
+      | auto i f0 nt0 =>
+        simp only [forcesOK, Bool.and_eq_true, beq_iff_eq] at hok
+        have := ih (made || nt0) hok.2 pre' post j f nt hr
+        simp only [this, List.any_cons, Ev.isNT]
+        cases made <;> cases nt0 <;> simp
+
+theorem aux_pass2T_forces [DecidableEq κ] : ∀ (hs : List (Hook κ α)) (i : Nat) (made : Bool) (rem : Nat) (d : Drv)
+    {hs' : List (Hook κ α)} {outs : List (List (Msg κ α))} {made' : Bool} {d' : Drv} {ev : List Ev},
+    QInv hs → rem = undecided hs → runPass2T hs i made rem d = some (hs', outs, made', d', ev) →
+    forcesOK made ev = true ∧ noAuto ev = decide (undecided hs = 0) := by
+  intro hs
+  induction hs with
+  | nil =>
+    intro i made rem d hs' outs made' d' ev _ _ h
+    simp only [runPass2T, Option.some.injEq, Prod.mk.injEq] at h
+    obtain ⟨_, _, _, _, rfl⟩ := h
+    simp [forcesOK, noAuto, undecided]
+  | cons h rest ih =>
+    intro i made rem d hs' outs made' d' ev hq hrem hrun
+    have hqrest : QInv rest := fun x hx => hq x (List.mem_cons_of_mem _ hx)
+    unfold runPass2T at hrun
+    cases hc : h.cur with
+    | some b =>
+      have hu : undecided (h :: rest) = undecided rest := by simp [undecided, hc]
+      simp only [hc] at hrun
+      split at hrun
+      · simp at hrun
+      · split at hrun
+        · simp at hrun
+        · rename_i hrec
+          simp only [Option.some.injEq, Prod.mk.injEq] at hrun
+          obtain ⟨_, _, _, _, rfl⟩ := hrun
+          obtain ⟨i1, i2⟩ := ih (i + 1) made rem d hqrest (by rw [hrem, hu]) hrec
+          simp only [List.nil_append, forcesOK, noAuto, hu]
+          exact ⟨i1, i2⟩
+    | none =>
+      simp only [hc] at hrun
+      cases ha : h.auto d (!made && rem == 1) with
+      | none => simp [ha] at hrun
+      | some res =>
+        obtain ⟨nt, h1, d1⟩ := res
+        simp only [ha] at hrun
+        have hcan := hq h (List.mem_cons_self ..) hc
+        have hu : undecided (h :: rest) = undecided rest + 1 := by simp [undecided, hc, hcan]
+        have hne : (rem == 0) = false := by rw [hrem, hu]; simp
+        simp only [hne, Bool.false_eq_true, ↓reduceIte] at hrun
+        split at hrun
+        · simp at hrun
+        · split at hrun
+          · simp at hrun
+          · rename_i hrec
+            simp only [Option.some.injEq, Prod.mk.injEq] at hrun
+            obtain ⟨_, _, _, _, rfl⟩ := hrun
+            obtain ⟨i1, i2⟩ := ih (i + 1) (made || nt) (rem - 1) d1 hqrest (by rw [hrem, hu]; simp) hrec
+            have hk : (rem == 1) = decide (undecided rest = 0) := by
+              rw [hrem, hu]; cases undecided rest <;> simp
+            simp only [List.cons_append, List.nil_append, forcesOK, noAuto, i1, i2, hk, hu, Bool.and_true,
+              beq_self_eq_true, true_and]
+            simp
+
+theorem aux_pass1T_unforced [DecidableEq κ] : ∀ (hs : List (Hook κ α)) (i : Nat) (made : Bool) (rem : Nat) (d : Drv)
+    {hs1 : List (Hook κ α)} {made1 : Bool} {rem1 : Nat} {d1 : Drv} {ev : List Ev},
+    runPass1T hs i made rem d = some (hs1, made1, rem1, d1, ev) → ∀ e ∈ ev, ∃ j nt, e = Ev.auto j false nt := by
+  intro hs
+  induction hs with
+  | nil =>
+    intro i made rem d hs1 made1 rem1 d1 ev h
+    simp only [runPass1T, Option.some.injEq, Prod.mk.injEq] at h
+    obtain ⟨_, _, _, _, rfl⟩ := h
+    simp
+  | cons h rest ih =>
+    intro i made rem d hs1 made1 rem1 d1 ev hrun
+    unfold runPass1T at hrun
+    split at hrun
+    · split at hrun
+      · simp at hrun
+      · rename_i hrec
+        simp only [Option.some.injEq, Prod.mk.injEq] at hrun
+        obtain ⟨_, _, _, _, rfl⟩ := hrun
+        exact ih _ _ _ _ hrec
+    · split at hrun
+      · split at hrun
+        · simp at hrun
+        · split at hrun
+          · simp at hrun
+          · rename_i hrec
+            simp only [Option.some.injEq, Prod.mk.injEq] at hrun
+            obtain ⟨_, _, _, _, rfl⟩ := hrun
+            intro e he
+            simp only [List.mem_cons] at he
+            rcases he with rfl | he
+            · exact ⟨_, _, rfl⟩
+            · exact ih _ _ _ _ hrec e he
+      · split at hrun
+        · simp at hrun
+        · rename_i hrec
+          simp only [Option.some.injEq, Prod.mk.injEq] at hrun
+          obtain ⟨_, _, _, _, rfl⟩ := hrun
+          exact ih _ _ _ _ hrec
+
+/-- **The forcing flag of every second-pass call of `run_hooks`** (any hook list whose undecided
+hooks can all release, `remaining_decision_count` = their number — what the first pass establishes):
+the call is forced iff `made_nontrivial_decision` was false when the pass started, *no* earlier call
+of the pass returned "non-trivial" (the `|=` accumulation: any earlier hook, not only the previous
+one) and no further call follows (it is the last undecided hook). -/
+theorem runHooks_second_pass_forcing_flag [DecidableEq κ] {hs hs' : List (Hook κ α)} {i : Nat} {made made' : Bool}
+    {rem : Nat} {d d' : Drv} {outs : List (List (Msg κ α))} {ev : List Ev}
+    (hq : QInv hs) (hrem : rem = undecided hs)
+    (hrun : runPass2T hs i made rem d = some (hs', outs, made', d', ev))
+    {pre post : List Ev} {j : Nat} {f nt : Bool} (hsplit : ev = pre ++ Ev.auto j f nt :: post) :
+    f = (!made && !(pre.any Ev.isNT) && noAuto post) :=
+  aux_forcesOK_split ev made (aux_pass2T_forces hs i made rem d hq hrem hrun).1 pre post j f nt hsplit
+
+/-- **`run_hooks` on an idle tick: the last undecided hook is forced iff no earlier hook made a
+non-trivial decision.**  The trace of `run_hooks` is the first-pass calls — never forced (trivial
+decisions of the hooks that cannot release) — followed by the second-pass calls, and a second-pass
+`autonomous_decision` call is forced exactly when no earlier second-pass call returned
+"non-trivial" and no further call follows it.  (With `made_nontrivial_decision = …` instead of
+`|= …` the last call would be forced whenever the call just before it was trivial.) -/
+theorem runHooks_forces_last_hook_iff_no_earlier_nontrivial [DecidableEq κ] {hs hs2 : List (Hook κ α)} {d d2 : Drv}
+    {outs : List (List (Msg κ α))} {made2 : Bool} {ev : List Ev}
+    (hidle : ∀ h ∈ hs, h.cur = none) (hrun : runHooksT hs d = some (hs2, outs, made2, d2, ev)) :
+    ∃ ev1 ev2, ev = ev1 ++ ev2 ∧ (∀ e ∈ ev1, ∃ j nt, e = Ev.auto j false nt) ∧
+      ∀ (pre post : List Ev) (j : Nat) (f nt : Bool), ev2 = pre ++ Ev.auto j f nt :: post →
+        (f = true ↔ (∀ e ∈ pre, e.isNT = false) ∧ noAuto post = true) := by
+  unfold runHooksT at hrun
+  split at hrun
+  · simp at hrun
+  · rename_i hs1 made1 rem1 d1 ev1 h1
+    split at hrun
+    · simp at hrun
+    · rename_i hs2' outs' made' d' ev2 h2
+      simp only [Option.some.injEq, Prod.mk.injEq] at hrun
+      obtain ⟨_, _, _, _, rfl⟩ := hrun
+      refine ⟨ev1, ev2, rfl, aux_pass1T_unforced hs 0 false hs.length d h1, ?_⟩
+      have he := aux_pass1T_erase hs 0 false hs.length d
+      rw [h1] at he
+      simp only [Option.map_some] at he
+      obtain ⟨hm, hq, hu, hr⟩ := aux_pass1 hs false hs.length d hidle he.symm
+      have hle := aux_canCount_le hs
+      intro pre post j f nt hsplit
+      have hf := runHooks_second_pass_forcing_flag hq (by rw [hr, hu]; omega) h2 hsplit
+      rw [hf, hm]
+      simp only [Bool.not_false, Bool.true_and, Bool.and_eq_true, Bool.not_eq_true', List.any_eq_false]
+      constructor
+      · rintro ⟨a, b⟩
+        exact ⟨fun e he => by simpa using a e he, b⟩
+      · rintro ⟨a, b⟩
+        exact ⟨fun e he => by simpa using a e he, b⟩
+
+/-- non-vacuity, and the witness that separates `|=` from `=`: three batches with one pending item
+each; the first releases, the second and the third withhold — the third call is *not* forced,
+although the call just before it was trivial -/
+example : (runHooksT [Hook.streamTotal (κ := Nat) [1] none, .streamTotal [2] none, .streamTotal [3] none]
+      ⟨[1, 0, 0], []⟩).map (·.2.2.2.2)
+    = some [.auto 0 false true, .rel 0, .auto 1 false false, .rel 1, .auto 2 false false, .rel 2] := by
+  decide
+
+/-- … and when the first two withhold, the third is forced -/
+example : (runHooksT [Hook.streamTotal (κ := Nat) [1] none, .streamTotal [2] none, .streamTotal [3] none]
+      ⟨[0, 0, 0], []⟩).map (·.2.2.2.2)
+    = some [.auto 0 false false, .rel 0, .auto 1 false false, .rel 1, .auto 2 true true, .rel 2] := by
+  decide
 
 end HvSim
